@@ -99,6 +99,22 @@ func genC13(seed uint64, index int, tier string) C13Cfg {
 	if r.Bool(0.3) {
 		c.Late = r.Intn(n)
 	}
+	// further backends whose encodings carry identifiers: PS (8%), and the tss-lib EdDSA adapter, whose party keys
+	// are derived from the identifiers (4%; about a second per run)
+	switch x := prng.Derive(seed, "more-backends").Float64(); {
+	case x < 0.04:
+		c.Deploy.Backend, c.Op = "eddsa", "keygen"
+		c.T = n - 1 // tss-lib's threshold: t+1 parties reconstruct
+		c.Deploy.Threshold = n - 1
+		c.Serial = true
+	case x < 0.12:
+		c.Deploy.Backend, c.Op = "ps", "keygen"
+		if c.T < 2 {
+			c.T = 2
+		}
+		c.Deploy.Threshold = c.T - 1
+		c.Deploy.PSMsgLen = 1 + int(x*1000)%3
+	}
 	return C13Cfg{Sess: c, IDs: ids, Enum: enum}
 }
 
@@ -176,6 +192,13 @@ func runC13(t *testing.T, spec RunSpec) *RunResult {
 				fillResult(res, w, ss)
 			}
 		})
+		if oc.ok && sc.Deploy.Backend == "ps" && !twin {
+			prob, n := psOracle(ids, ids, sc.T, sc.Deploy.PSMsgLen, shares, prng.Derive(spec.Seed, "messages"), lg, 1)
+			res.Probes["subsets-verified"] = n
+			if prob != "" {
+				res.Violations = append(res.Violations, netsim.Violation{Invariant: "C13/serialisation", Class: "C13/serialisation", Detail: prob})
+			}
+		}
 		if oc.ok && sc.Deploy.Backend == "bls" && !twin {
 			prob, n := blsOracle(ids, sc.T, shares, prng.Derive(spec.Seed, "digests"), lg)
 			res.Probes["subsets-verified"] = n
@@ -206,6 +229,20 @@ func runC13(t *testing.T, spec RunSpec) *RunResult {
 	for i := range res.Violations {
 		if strings.HasPrefix(res.Violations[i].Class, "C13/stalled") || strings.HasPrefix(res.Violations[i].Class, "C13/call-failed") {
 			res.Violations[i].Detail = fmt.Sprintf("ids %v (twin with ids 1..n finished): %s", cfg.IDs, res.Violations[i].Detail)
+		}
+	}
+	// tss-lib uses the party keys as the points at which the shares are evaluated: a party with identifier 0 cannot
+	// take part in a session of the adapters (known finding, see known_findings.jsonl)
+	if cfg.Sess.Deploy.Backend == "eddsa" || cfg.Sess.Deploy.Backend == "ecdsa" {
+		for _, id := range cfg.IDs {
+			if id == 0 {
+				for i := range res.Violations {
+					if !strings.HasPrefix(res.Violations[i].Class, "panic/") {
+						res.Violations[i].Detail = "[" + res.Violations[i].Class + "] " + res.Violations[i].Detail
+						res.Violations[i].Class = "C13/adapter-identifier-zero"
+					}
+				}
+			}
 		}
 	}
 	res.Nontrivial = hi > 0
